@@ -7,29 +7,32 @@ SPEC = {'id': 'C28',
  'props_module': 'AgdbRaft.Props.C28',
  'audit_file': 'AgdbRaft/Audit/C28.lean',
  'full_theorems': [],
- 'partial_theorems': [],
+ 'partial_theorems': ['C28_commit_monotone', 'C28_committed_stable', 'C28_commit_monotone_step'],
  'counterexamples': ['C28_state_machine_safety_counterexample'],
  'level': 'other',
- 'level_text': 'The global part of the property is FALSE of the code (also with the C27 repair): Lean theorem '
+ 'level_text': ('Two of the three clauses are PROVED in Lean over all reachable states and all event sequences of the model mirroring the current '
+               'raft.rs (any cluster size, timers, schedule): C28_commit_monotone (a node\'s commit index - local().log_commit and '
+               'Storage::log_commit() - never decreases) and C28_committed_stable (an entry flagged committed, or at an index <= the commit index, is '
+               'never removed or replaced on its node: same index/term/payload stays, the committed flag is never cleared, and it remains the only '
+               'entry at that index), by a per-node invariant (committed -> index <= log_commit; every entry <= log_index; log strictly increasing by '
+               'index; storage commit <= log_commit) plus a message invariant (no node ever sends a request to itself, so update_node / commit never '
+               'overwrite the local slot) and the single-node special case. The third, global clause is FALSE of the code (also with the C27 repair): '
                'C28_state_machine_safety_counterexample refutes C28_state_machine_safety_statement with a 21-event schedule on 3 nodes '
                '(append_request accepts an entry of a newer term at log_index+1 without checking the previous entry, the leader counts that '
-               "acknowledgement, and heartbeat_request then commits the follower's divergent prefix); the same schedule fails the harness oracle on "
+               'acknowledgement, and heartbeat_request then commits the follower\'s divergent prefix); the same schedule fails the harness oracle on '
                'the real code (corpus/C28) and random schedules hit it at three commit call sites. Known finding, no small repair (needs a '
-               'prev-index/prev-term consistency check = wire format + Storage trait change). The model (Model/Raft.lean, one Lean function per '
-               'raft.rs function; Model/Net.lean network + step) is tied to the code on every run: harness/raft/build.rs compiles the CURRENT '
+               'prev-index/prev-term consistency check = wire format + Storage trait change). The model (Model/Raft.lean, one Lean function per raft.rs '
+               'function; Model/Net.lean network + step) is tied to the code on every run: harness/raft/build.rs compiles the CURRENT '
                'agdb_server/src/raft.rs (cut at its test module, std::time::Instant replaced by a virtual clock, nothing else changed) into a '
-               'deterministic simulator with an in-memory Storage that mirrors ClusterStorage/ClusterLog; generated adversarial schedules (tick / '
-               'adv / deliver k / append, every message deliverable any number of times in any order or never) are executed on the real code and '
-               'replayed by the Lean driver, and after EVERY event the complete state of every node (state, term, election timeout, log with commit '
-               'flags, storage index/term/commit, per-peer log_index/log_term/log_commit/timer/voted) and every emitted request/response are '
+               'deterministic simulator with an in-memory Storage that mirrors ClusterStorage/ClusterLog; generated adversarial schedules are executed '
+               'on the real code and replayed by the Lean driver, and after EVERY event the complete state of every node and every emitted message are '
                'compared. Oracle on the real code after every event: commit index (raft and storage) never decreases, a committed entry is never '
-               'removed or duplicated at its index, no two nodes ever commit different entries at one index. The two local parts are checked by the '
-               'oracle and the correspondence only; their Lean proofs are not finished.',
+               'removed or duplicated at its index, no two nodes ever commit different entries at one index.'),
  'level_note': 'Trusted: Lean kernel; the hand-written model being faithful (validated on every run by the per-event correspondence, not verified); '
                'u64 arithmetic modelled in Nat (terms/indexes grow by one per event); the Storage implementation never fails and behaves like '
                'ClusterStorage (in-memory mirror; the CommitError paths are not exercised); nodes do not crash/restart (Cluster::new re-reads the '
                'term from the log, restarts are outside the property); messages are not forged (a response is paired with its request by the '
-               'transport). Local theorems (commit index monotone, committed entries stable) are stated in notes/raft.md but not proved.',
+               'transport).',
  'technique': 'Lean counterexample (kernel-evaluated schedule) + per-event differential correspondence + oracle on the real raft.rs',
  'design_ref': 'DESIGN.md §6 C28',
  'assumptions': ['no node restarts; storage calls never fail',
